@@ -138,7 +138,7 @@ func fmtV6(t *rapid.T, a netip.Addr, l string) string {
 }
 
 func genC14Valid(t *rapid.T) c14Spec {
-	kind := rapid.SampledFrom([]string{"single4", "single6", "range4", "range6", "cidr4", "cidr4", "cidr6", "cidr6", "mask4", "mask4", "cidr6-low"}).Draw(t, "kind")
+	kind := rapid.SampledFrom([]string{"single4", "single6", "range4", "range6", "cidr4", "cidr4", "cidr6", "cidr6", "mask4", "mask4", "cidr6-low", "range6-low"}).Draw(t, "kind")
 	s := c14Spec{Class: kind, Valid: true}
 	if kind == "cidr6-low" {
 		// an IPv6 CIDR whose base lies in ::/16, where the IPv4-mapped (::ffff:a.b.c.d) and compatible forms live,
@@ -167,6 +167,35 @@ func genC14Valid(t *rapid.T) c14Spec {
 			text = "::ffff:" + a.Unmap().String() // the dotted IPv6 spelling of a mapped address
 		}
 		s.Text = fmt.Sprintf("%s/%d", text, p)
+		return s
+	}
+	if kind == "range6-low" {
+		// an IPv6 range (both bounds in IPv6 notation) in ::/16, at the borders of the IPv4-mapped block
+		// ::ffff:0:0 .. ::ffff:ffff:ffff: one bound inside it, the other outside, or both inside
+		below := new(big.Int).Sub(mappedBase, big.NewInt(int64(rapid.IntRange(0, 70000).Draw(t, "low-below"))))
+		inside := new(big.Int).Add(mappedBase, new(big.Int).SetUint64(uint64(rapid.Uint32().Draw(t, "low-inside"))))
+		above := new(big.Int).Add(mappedBase, big.NewInt(1<<32+int64(rapid.IntRange(0, 70000).Draw(t, "low-above"))))
+		var lo, hi *big.Int
+		switch rapid.IntRange(0, 3).Draw(t, "low-shape") {
+		case 0:
+			lo, hi = below, inside
+		case 1:
+			lo, hi = inside, above
+		case 2:
+			lo, hi = below, above
+		default:
+			lo, hi = mappedBase, inside
+		}
+		spell := func(v *big.Int, l string) string {
+			a, _ := netip.AddrFromSlice(bigAddr16(v))
+			if a.Is4In6() && rapid.Bool().Draw(t, l+"-dotted") {
+				return "::ffff:" + a.Unmap().String()
+			}
+			return a.StringExpanded()
+		}
+		s.Fam = 6
+		s.Lo, s.Hi = lo.String(), hi.String()
+		s.Text = spell(lo, "lo") + "-" + spell(hi, "hi")
 		return s
 	}
 	switch kind {
@@ -318,10 +347,24 @@ func genC14Invalid(t *rapid.T) c14Spec {
 			s.Text = b.String() + "-" + a6.String()
 		}
 	case "mixed-family":
-		if rapid.Bool().Draw(t, "order") {
+		switch rapid.IntRange(0, 3).Draw(t, "order") {
+		case 0:
 			s.Text = a4.String() + "-" + a6.String()
-		} else {
+		case 1:
 			s.Text = a6.String() + "-" + a4.String()
+		case 2:
+			// an IPv4 address and (the IPv6 spelling of) a mapped one: still one bound per family
+			b := a4.Next()
+			if !b.IsValid() {
+				b = a4
+			}
+			s.Text = "::ffff:" + a4.String() + "-" + b.String()
+		default:
+			b := a4.Next()
+			if !b.IsValid() {
+				b = a4
+			}
+			s.Text = a4.String() + "-::ffff:" + b.String()
 		}
 	case "v6-with-mask":
 		s.Text = a6.String() + "/" + net.IP(net.CIDRMask(rapid.IntRange(1, 31).Draw(t, "p"), 32)).String()
